@@ -608,7 +608,9 @@ type base struct {
 }
 
 func serverBases(thorough bool) []base {
-	mk := func(a, u, t string, c cfg) base { return base{in: []byte(a + u + t), a: len(a), u: len(a) + len(u), cfg: c} }
+	mk := func(a, u, t string, c cfg) base {
+		return base{in: []byte(a + u + t), a: len(a), u: len(a) + len(u), cfg: c}
+	}
 	bs := []base{
 		mk("X-SOCKETACE / HTTP/1.1\r\nAccepts-Protocol-Version: v2.0.0\r\nUser-Agent: socketace/unknown\r\n\r\n",
 			"GET / HTTP/1.1\r\nConnection: upgrade\r\nUpgrade: socketace/v2.0.0\r\nUser-Agent: socketace/unknown\r\n\r\n",
@@ -628,7 +630,9 @@ func serverBases(thorough bool) []base {
 }
 
 func clientBases(thorough bool) []base {
-	mk := func(a, u, t string, c cfg) base { return base{in: []byte(a + u + t), a: len(a), u: len(a) + len(u), cfg: c} }
+	mk := func(a, u, t string, c cfg) base {
+		return base{in: []byte(a + u + t), a: len(a), u: len(a) + len(u), cfg: c}
+	}
 	bs := []base{
 		mk("HTTP/1.1 200 OK\r\nProtocol-Version: v2.0.0\r\nServer: socketace/unknown\r\n\r\n",
 			"HTTP/1.1 101 Switching Protocols\r\nConnection: upgrade\r\nProtocol-Version: v2.0.0\r\nServer: socketace/unknown\r\nUpgrade: socketace/v2.0.0\r\n\r\n",
